@@ -78,9 +78,41 @@ def handleF : List Sexp → Sexp
 
 def handle (α : Type) [Arith α] [Wire α] (args : List Sexp) : Sexp := handleF args
 
-/-- exact oracle (the program-level property check runs in the harness: expansion vs. hand-unrolled
-text); here: the value of a folded aggregate equals the aggregate of the values, on the
-implementation's own tree. -/
+/-! ### exact oracle: the value of the implementation's folded tree is the aggregate of the values -/
+
+/-- test assignment: `x_i ↦ (i + 2) / 3`, `b_i ↦ i mod 2` -/
+def rho (name : String) : Rat :=
+  let i : Nat := (match name.splitOn "_" with | [_, d] => d.toNat?.getD 0 | _ => 0)
+  if name.startsWith "b" then ((i % 2 : Nat) : Rat) else ((i : Rat) + 2) / 3
+
+def expected (kind : String) (vs : List Rat) : Option Rat :=
+  match kind with
+  | "sum" => some (vs.foldl (· + ·) 0)
+  | "prod" => some (vs.foldl (· * ·) 1)
+  | "avg" => if vs.isEmpty then none else some (vs.foldl (· + ·) 0 / (vs.length : Rat))
+  | "min" => (match vs with | x :: xs => some (xs.foldl (fun a b => if b < a then b else a) x) | [] => none)
+  | "max" => (match vs with | x :: xs => some (xs.foldl (fun a b => if a < b then b else a) x) | [] => none)
+  | "all" => some (if vs.all (· != 0) then 1 else 0)
+  | "any" => some (if vs.any (· != 0) then 1 else 0)
+  | "abs" => (match vs with | [x] => some (if x < 0 then -x else x) | _ => none)
+  | _ => none
+
 def oracle : List Sexp → Sexp
-  | _ => app "ok" []
+  | [.atom "fold-value", .atom kind, .list leaves, .list [.atom "ok", tree]] =>
+    match (optAll (leaves.map Exp.dec) : Option (List (Exp (Ext Rat)))), (Exp.dec tree : Option (Exp (Ext Rat))) with
+    | some ls, some t =>
+      (match Sem.evalList rho ls with
+       | none => app "err" [.atom "leaves-undefined"]
+       | some vs =>
+         let got := Sem.eval rho t
+         if kind == "xor" then
+           -- parity of the truth values (a single operand keeps its own value)
+           let par := (vs.map (· != 0)).foldl (· != ·) false
+           match got with
+           | some r => if (r != 0) == par then app "ok" [] else app "violation" [.atom "fold-value-differs", .atom kind]
+           | none => app "violation" [.atom "fold-value-undefined", .atom kind]
+         else if got == expected kind vs then app "ok" []
+         else app "violation" [.atom "fold-value-differs", .atom kind, .atom (toString (repr got)), .atom (toString (repr (expected kind vs)))])
+    | _, _ => app "err" [.atom "decode"]
+  | _ => app "err" [.atom "bad-request"]
 end Rooc.Drv.C06
